@@ -1,6 +1,706 @@
 import KoordVerif.Model.C18
+/-
+C18 — property theorems (DESIGN.md §4 C18).  All statements are about the executable model
+`Model/C18.lean`, for arbitrary threshold quantities, usages, pod sets, filter/evictor answers,
+detector states and observed sort orders (no bound on sizes).
+`Ev.usage / Ev.high / Ev.avail` are the running estimates the code compared right before the
+`Evictor.Evict` call the event stands for.
+-/
 namespace KoordVerif.C18
 
-theorem placeholder_tmp : over [2] [1] = true := by decide
+/-! ### helpers -/
+
+/-- what one Evict call leaves of an estimate. -/
+def Ev.after (e : Ev) (v : Vec) : Vec := if e.moved then vsub v e.metric else v
+
+/-- the events replay the running estimates: every call sees the initial estimate minus what
+    the earlier successful calls (with a pod metric) moved. -/
+def Replay : Vec → Vec → List Ev → Prop
+  | _, _, [] => True
+  | cur, avail, e :: es => e.usage = cur ∧ e.avail = avail ∧ Replay (e.after cur) (e.after avail) es
+
+/-- the headroom part alone (it is shared by all source nodes of one pass). -/
+def AvailChain : Vec → List Ev → Prop
+  | _, [] => True
+  | a, e :: es => e.avail = a ∧ AvailChain (e.after a) es
+
+def finalAvail (a : Vec) (es : List Ev) : Vec := es.foldl (fun a e => e.after a) a
+
+theorem replay_availChain (cur a : Vec) (es : List Ev) (h : Replay cur a es) : AvailChain a es := by
+  induction es generalizing cur a with
+  | nil => trivial
+  | cons e es ih => exact ⟨h.2.1, ih _ _ h.2.2⟩
+
+theorem availChain_append (a : Vec) (xs ys : List Ev) :
+    AvailChain a (xs ++ ys) ↔ AvailChain a xs ∧ AvailChain (finalAvail a xs) ys := by
+  induction xs generalizing a with
+  | nil => simp [AvailChain, finalAvail]
+  | cons x xs ih =>
+    simp only [List.cons_append, AvailChain, finalAvail, List.foldl_cons]
+    rw [ih]
+    simp [finalAvail, and_assoc]
+
+/-! ### 1./3. the eviction loop of one source node: only while over the high threshold and while
+       headroom is left; exact running estimates; stops -/
+
+/-- dry-run never calls the evictor. -/
+theorem evictLoop_dry_no_calls (prod : Bool) (nid : Nat) (high : Vec) (ps : List Pod) (cur avail : Vec) :
+    (evictLoop true prod nid high cur avail ps).evs = [] := by
+  induction ps generalizing cur avail with
+  | nil => simp [evictLoop]
+  | cons p ps ih =>
+    unfold evictLoop
+    split
+    · rfl
+    · split
+      · rfl
+      · split
+        · exact ih _ _
+        · simp only [if_true]
+          split <;> exact ih _ _
+
+/-- every Evict call of the loop: the node's running usage is above its high threshold in some
+    resource, every resource still has headroom, and the pod passed the filter right before. -/
+theorem evictLoop_sound (dry prod : Bool) (nid : Nat) (high : Vec) (ps : List Pod) (cur avail : Vec)
+    (e : Ev) (he : e ∈ (evictLoop dry prod nid high cur avail ps).evs) :
+    over e.usage e.high = true ∧ allPos e.avail = true ∧ e.high = high ∧ e.node = nid ∧ e.prod = prod ∧
+    dry = false ∧
+    ∃ p ∈ ps, p.id = e.pod ∧ p.filt2 = true ∧ e.ok = p.evictOK ∧ e.metric = p.metric ∧
+      e.moved = (p.evictOK && p.hasMetric) := by
+  cases dry with
+  | true => rw [evictLoop_dry_no_calls] at he; cases he
+  | false =>
+  induction ps generalizing cur avail with
+  | nil => simp [evictLoop] at he
+  | cons p ps ih =>
+    unfold evictLoop at he
+    by_cases h1 : over cur high = true
+    case neg => simp [h1] at he
+    by_cases h2 : allPos avail = true
+    case neg => simp [h1, h2] at he
+    by_cases h3 : p.filt2 = true
+    case neg =>
+      simp only [h1, h2, h3, Bool.not_true, Bool.not_false, Bool.false_eq_true, if_false, if_true] at he
+      obtain ⟨a, b, c, d, f, g, q, hq, r⟩ := ih _ _ he
+      exact ⟨a, b, c, d, f, g, q, List.mem_cons_of_mem _ hq, r⟩
+    simp only [h1, h2, h3, Bool.not_true, Bool.false_eq_true, if_false] at he
+    rcases List.mem_cons.mp he with rfl | he'
+    · exact ⟨h1, h2, rfl, rfl, rfl, rfl, p, by simp, rfl, h3, rfl, rfl, rfl⟩
+    · split at he'
+      all_goals
+        obtain ⟨a, b, c, d, f, g, q, hq, r⟩ := ih _ _ he'
+        exact ⟨a, b, c, d, f, g, q, List.mem_cons_of_mem _ hq, r⟩
+
+/-- the estimates at every call are exactly: initial value minus what was moved before; and the
+    headroom handed to the next source node is what is left after the last call. -/
+theorem evictLoop_replay (prod : Bool) (nid : Nat) (high : Vec) (ps : List Pod) (cur avail : Vec) :
+    Replay cur avail (evictLoop false prod nid high cur avail ps).evs ∧
+    (evictLoop false prod nid high cur avail ps).avail =
+      finalAvail avail (evictLoop false prod nid high cur avail ps).evs := by
+  induction ps generalizing cur avail with
+  | nil => simp [evictLoop, Replay, finalAvail]
+  | cons p ps ih =>
+    unfold evictLoop
+    by_cases h1 : over cur high = true
+    case neg => simp [h1, Replay, finalAvail]
+    by_cases h2 : allPos avail = true
+    case neg => simp [h1, h2, Replay, finalAvail]
+    by_cases h3 : p.filt2 = true
+    case neg => simpa [h1, h2, h3] using ih cur avail
+    simp only [h1, h2, h3, Bool.not_true, Bool.false_eq_true, if_false]
+    by_cases h5 : (p.evictOK && p.hasMetric) = true
+    · simp only [h5, if_true]
+      refine ⟨⟨rfl, rfl, ?_⟩, ?_⟩
+      · simpa [Ev.after, h5] using (ih (vsub cur p.metric) (vsub avail p.metric)).1
+      · simpa [finalAvail, Ev.after, h5] using (ih (vsub cur p.metric) (vsub avail p.metric)).2
+    · simp only [h5, Bool.false_eq_true, if_false]
+      refine ⟨⟨rfl, rfl, ?_⟩, ?_⟩
+      · simpa [Ev.after, h5] using (ih cur avail).1
+      · simpa [finalAvail, Ev.after, h5] using (ih cur avail).2
+
+/-- stops: when the running usage is back at or under the high threshold, or some resource has
+    no headroom left, the loop makes no further call — whatever pods remain. -/
+theorem evictLoop_stops (dry prod : Bool) (nid : Nat) (high : Vec) (ps : List Pod) (cur avail : Vec)
+    (h : over cur high = false ∨ allPos avail = false) :
+    (evictLoop dry prod nid high cur avail ps).evs = [] ∧
+    (evictLoop dry prod nid high cur avail ps).avail = avail := by
+  cases ps with
+  | nil => simp [evictLoop]
+  | cons p ps =>
+    unfold evictLoop
+    rcases h with h | h
+    · simp [h]
+    · by_cases h1 : over cur high = true <;> simp [h1, h]
+
+/-- "as soon as": in the call sequence of a source node, once a call leaves the estimate at or
+    under the threshold (or the headroom exhausted) it is the last call. -/
+theorem evictLoop_stops_as_soon_as (prod : Bool) (nid : Nat) (high : Vec) (ps : List Pod) (cur avail : Vec)
+    (pre post : List Ev) (e : Ev)
+    (hs : (evictLoop false prod nid high cur avail ps).evs = pre ++ e :: post)
+    (h : over (e.after e.usage) high = false ∨ allPos (e.after e.avail) = false) : post = [] := by
+  have hsound := evictLoop_sound false prod nid high ps cur avail
+  have hrep := (evictLoop_replay prod nid high ps cur avail).1
+  rw [hs] at hsound hrep
+  clear hs
+  induction pre generalizing cur avail with
+  | nil =>
+    cases post with
+    | nil => rfl
+    | cons e' post =>
+      exfalso
+      simp only [List.nil_append, Replay] at hrep
+      obtain ⟨hu, ha, hu', ha', _⟩ := hrep
+      obtain ⟨ho, hp, hh, _⟩ := hsound e' (by simp)
+      rw [hu', hh] at ho
+      rw [ha'] at hp
+      rw [hu, ha] at h
+      rcases h with h | h
+      · rw [ho] at h; cases h
+      · rw [hp] at h; cases h
+  | cons x pre ih =>
+    simp only [List.cons_append, Replay] at hrep
+    exact ih _ _ (fun e' he' => hsound e' (by simp [he'])) hrep.2.2
+
+/-! ### pods: only pods that passed the filters (and, with NodeFit, have a metric and a fitting target) -/
+
+theorem removable_sub (nodeFit : Bool) (ps : List Pod) (tg : List Tgt) (p : Pod)
+    (hp : p ∈ (removable nodeFit tg ps).1) :
+    p ∈ ps ∧ p.filt1 = true ∧ (nodeFit = true → p.hasMetric = true) := by
+  cases nodeFit with
+  | false =>
+    induction ps generalizing tg with
+    | nil => simp [removable] at hp
+    | cons q qs ih =>
+      unfold removable at hp
+      by_cases h1 : q.filt1 = true
+      case neg =>
+        simp only [h1, Bool.not_false, if_true] at hp
+        obtain ⟨a, b⟩ := ih _ hp
+        exact ⟨List.mem_cons_of_mem _ a, b⟩
+      simp only [h1, Bool.not_true, Bool.not_false, Bool.false_eq_true, if_false, if_true] at hp
+      rcases List.mem_cons.mp hp with rfl | hp'
+      · exact ⟨by simp, h1, by simp⟩
+      · obtain ⟨a, b⟩ := ih _ hp'
+        exact ⟨List.mem_cons_of_mem _ a, b⟩
+  | true =>
+    induction ps generalizing tg with
+    | nil => simp [removable] at hp
+    | cons q qs ih =>
+      unfold removable at hp
+      by_cases h1 : q.filt1 = true
+      case neg =>
+        simp only [h1, Bool.not_false, if_true] at hp
+        obtain ⟨a, b⟩ := ih _ hp
+        exact ⟨List.mem_cons_of_mem _ a, b⟩
+      by_cases h3 : q.hasMetric = true
+      case neg =>
+        simp only [h1, h3, Bool.not_true, Bool.not_false, Bool.false_eq_true, if_false, if_true] at hp
+        obtain ⟨a, b⟩ := ih _ hp
+        exact ⟨List.mem_cons_of_mem _ a, b⟩
+      simp only [h1, h3, Bool.not_true, Bool.false_eq_true, if_false] at hp
+      split at hp
+      · obtain ⟨a, b⟩ := ih _ hp
+        exact ⟨List.mem_cons_of_mem _ a, b⟩
+      · rcases List.mem_cons.mp hp with rfl | hp'
+        · exact ⟨by simp, h1, fun _ => h3⟩
+        · obtain ⟨a, b⟩ := ih _ hp'
+          exact ⟨List.mem_cons_of_mem _ a, b⟩
+
+theorem applyOrder_sub (ord : List Nat) (ps : List Pod) (p : Pod) (hp : p ∈ applyOrder ord ps) : p ∈ ps := by
+  unfold applyOrder at hp
+  rcases List.mem_append.mp hp with h | h
+  · obtain ⟨i, _, hi⟩ := List.mem_filterMap.mp h
+    exact List.mem_of_find?_eq_some hi
+  · exact (List.mem_filter.mp h).1
+
+theorem orderNodes_sub (ord : List Nat) (ns : List Node) (n : Node) (hn : n ∈ orderNodes ord ns) : n ∈ ns := by
+  unfold orderNodes at hn
+  rcases List.mem_append.mp hn with h | h
+  · obtain ⟨i, _, hi⟩ := List.mem_filterMap.mp h
+    exact List.mem_of_find?_eq_some hi
+  · exact (List.mem_filter.mp h).1
+
+/-- what is known about one Evict call of a pass over the source list `src`. -/
+def EvOK (dry nodeFit prod : Bool) (src : List Node) (e : Ev) : Prop :=
+  dry = false ∧ e.prod = prod ∧ over e.usage e.high = true ∧ allPos e.avail = true ∧
+  ∃ s ∈ src, s.id = e.node ∧ e.high = (if prod then s.phigh else s.high) ∧
+    ∃ p ∈ s.pods, p.id = e.pod ∧ p.filt1 = true ∧ p.filt2 = true ∧ e.ok = p.evictOK ∧
+      (prod = true → p.prod = true) ∧ (nodeFit = true → p.hasMetric = true)
+
+theorem balanceLoop_sound (dry nodeFit prod : Bool) (order : Nat → List Nat) (src : List Node)
+    (tg : List Tgt) (avail : Vec) (e : Ev)
+    (he : e ∈ (balanceLoop dry nodeFit prod order tg avail src).evs) : EvOK dry nodeFit prod src e := by
+  induction src generalizing tg avail with
+  | nil => simp [balanceLoop] at he
+  | cons s ss ih =>
+    have lift : EvOK dry nodeFit prod ss e → EvOK dry nodeFit prod (s :: ss) e := by
+      rintro ⟨a, b, c, d, s', hs', r⟩
+      exact ⟨a, b, c, d, s', List.mem_cons_of_mem _ hs', r⟩
+    unfold balanceLoop at he
+    simp only at he
+    generalize hall : (if prod = true then List.filter (fun x => x.prod) s.pods else s.pods) = all at he
+    by_cases hE : (removable nodeFit tg all).fst.isEmpty = true
+    · rw [if_pos hE] at he
+      exact lift (ih _ _ he)
+    · rw [if_neg hE] at he
+      rcases List.mem_append.mp he with h | h
+      · obtain ⟨ho, hp, hh, hn, hpr, hd, p, hpm, hid, hf2, hok, _⟩ := evictLoop_sound _ _ _ _ _ _ _ e h
+        have hrem := removable_sub nodeFit _ tg p (applyOrder_sub _ _ p hpm)
+        rw [← hall] at hrem
+        refine ⟨hd, hpr, ho, hp, s, by simp, hn.symm, hh, p, ?_, hid, hrem.2.1, hf2, hok, ?_, hrem.2.2⟩
+        · by_cases hprod : prod = true
+          · simp only [hprod, if_true] at hrem
+            exact (List.mem_filter.mp hrem.1).1
+          · simpa [hprod] using hrem.1
+        · intro hprod
+          simp only [hprod, if_true] at hrem
+          simpa using (List.mem_filter.mp hrem.1).2
+      · exact lift (ih _ _ h)
+
+/-- the headroom seen by the calls of one pass is one running estimate across all its source nodes. -/
+theorem balanceLoop_availChain (nodeFit prod : Bool) (order : Nat → List Nat) (src : List Node)
+    (tg : List Tgt) (avail : Vec) :
+    AvailChain avail (balanceLoop false nodeFit prod order tg avail src).evs ∧
+    (balanceLoop false nodeFit prod order tg avail src).avail =
+      finalAvail avail (balanceLoop false nodeFit prod order tg avail src).evs := by
+  induction src generalizing tg avail with
+  | nil => simp [balanceLoop, AvailChain, finalAvail]
+  | cons s ss ih =>
+    unfold balanceLoop
+    simp only
+    generalize (if prod = true then List.filter (fun x => x.prod) s.pods else s.pods) = all
+    generalize removable nodeFit tg all = rm
+    by_cases hE : rm.fst.isEmpty = true
+    · rw [if_pos hE]
+      exact ih _ _
+    · rw [if_neg hE]
+      obtain ⟨hr, hf⟩ := evictLoop_replay prod s.id (if prod = true then s.phigh else s.high)
+        (applyOrder (order s.id) rm.fst) (if prod = true then s.prodUsage else s.usage) avail
+      generalize evictLoop false prod s.id (if prod = true then s.phigh else s.high)
+        (if prod = true then s.prodUsage else s.usage) avail (applyOrder (order s.id) rm.fst) = lo at hr hf ⊢
+      obtain ⟨ih1, ih2⟩ := ih rm.snd lo.avail
+      constructor
+      · rw [availChain_append]
+        refine ⟨replay_availChain _ _ _ hr, ?_⟩
+        rw [← hf]; exact ih1
+      · simp only [finalAvail, List.foldl_append] at *
+        rw [ih2, hf]
+
+/-! ### anomaly detector -/
+
+/-- Mark(false) reports "anomaly" only if the detector already was anomalous, or this mark makes
+    the count of abnormal marks since the counter was last cleared exceed the configured number. -/
+theorem markAbn_anomaly (c : Cond) (d : Det) (h : (d.markAbn c).anomaly = true) :
+    (d.current c).anomaly = true ∨ (d.current c).cAbn + 1 > c.abn := by
+  unfold Det.markAbn at h
+  generalize d.current c = d' at h ⊢
+  rcases d' with ⟨a, x, y⟩
+  by_cases hx : c.abn < x + 1 <;> cases a <;> simp [Det.current, hx] at h ⊢ <;> omega
+
+inductive Mark where
+  | abn | norm | reset
+deriving Repr, DecidableEq
+
+def Det.step (c : Cond) (d : Det) : Mark → Det
+  | .abn => d.markAbn c
+  | .norm => d.markNorm c
+  | .reset => d.reset
+
+/-- abnormal marks since the last normal mark (a Reset does not interrupt the count: it is a
+    no-op in state OK). -/
+def streakFrom (k : Nat) : List Mark → Nat
+  | [] => k
+  | .abn :: ms => streakFrom (k + 1) ms
+  | .norm :: ms => streakFrom 0 ms
+  | .reset :: ms => streakFrom k ms
+
+theorem step_inv (c : Cond) (d : Det) (k : Nat) (m : Mark)
+    (h : d.anomaly = false → d.cAbn ≤ k) :
+    (d.step c m).anomaly = false → (d.step c m).cAbn ≤ streakFrom k [m] := by
+  rcases d with ⟨a, x, y⟩
+  cases m <;> cases a <;>
+    simp only [Det.step, Det.markAbn, Det.markNorm, Det.reset, Det.current, Det.fresh, streakFrom] at h ⊢ <;>
+    (repeat' split) <;> simp_all <;> omega
+
+theorem run_inv (c : Cond) (ms : List Mark) (d : Det) (k : Nat)
+    (h : d.anomaly = false → d.cAbn ≤ k) :
+    (ms.foldl (Det.step c) d).anomaly = false → (ms.foldl (Det.step c) d).cAbn ≤ streakFrom k ms := by
+  induction ms generalizing d k with
+  | nil => simpa [streakFrom] using h
+  | cons m ms ih =>
+    simp only [List.foldl_cons]
+    cases m with
+    | abn => exact ih _ _ (by simpa [streakFrom] using step_inv c d k .abn h)
+    | norm => exact ih _ _ (by simpa [streakFrom] using step_inv c d k .norm h)
+    | reset => exact ih _ _ (by simpa [streakFrom] using step_inv c d k .reset h)
+
+/-
+FULL STATEMENT (property text): "when anomaly detection is configured, [the node] has been [above
+its high threshold] for the required consecutive rounds" — i.e. `ConsecutiveRule` below.  It is
+FALSE for the code as written (`anomaly_gating_counterexample`): a round in which the node is not
+over its threshold produces no mark at all, and Reset() keeps the counters in state OK, so the
+count has gaps.  What holds (`anomaly_gating_partial`): a detector that is OK and turns anomalous
+on an abnormal mark has seen more than `abn` abnormal marks not separated by a normal mark.
+-/
+theorem anomaly_gating_partial (c : Cond) (ms : List Mark)
+    (hbefore : (ms.foldl (Det.step c) Det.fresh).anomaly = false)
+    (hafter : ((ms ++ [Mark.abn]).foldl (Det.step c) Det.fresh).anomaly = true) :
+    streakFrom 0 (ms ++ [Mark.abn]) > c.abn := by
+  have hinv := run_inv c ms Det.fresh 0 (by simp [Det.fresh]) hbefore
+  simp only [List.foldl_append, List.foldl_cons, List.foldl_nil, Det.step] at hafter
+  have hstreak : ∀ (k : Nat) (l : List Mark), streakFrom k (l ++ [Mark.abn]) = streakFrom k l + 1 := by
+    intro k l
+    induction l generalizing k with
+    | nil => simp [streakFrom]
+    | cons m l ih => cases m <;> simp [streakFrom, ih]
+  rw [hstreak]
+  generalize ms.foldl (Det.step c) Det.fresh = d at *
+  rcases markAbn_anomaly c d hafter with h | h
+  · simp [Det.current, hbefore] at h
+  · simp only [Det.current, hbefore, Bool.false_and, Bool.false_eq_true, if_false] at h
+    omega
+
+/-! ### the round -/
+
+theorem mem_ofClass (c : Cls) (ns : List Node) (n : Node) : n ∈ ofClass c ns ↔ n ∈ ns ∧ classify n = c := by
+  simp [ofClass, List.mem_filter]
+
+theorem filterAbnormal_sub (c : Cond) (src : List Node) (ds : Dets) (n : Node)
+    (h : n ∈ (filterAbnormal c ds src).1) : n ∈ src := by
+  induction src generalizing ds with
+  | nil => simp [filterAbnormal] at h
+  | cons s ss ih =>
+    unfold filterAbnormal at h
+    simp only at h
+    split at h
+    · rcases List.mem_cons.mp h with rfl | h'
+      · simp
+      · exact List.mem_cons_of_mem _ (ih _ h')
+    · exact List.mem_cons_of_mem _ (ih _ h)
+
+theorem filterRealAbnormal_sub (c : Option Cond) (src : List Node) (ds : Dets) (n : Node)
+    (h : n ∈ (filterRealAbnormal c ds src).1) : n ∈ src := by
+  unfold filterRealAbnormal at h
+  split at h
+  · exact h
+  · split at h
+    · exact h
+    · exact filterAbnormal_sub _ _ _ _ h
+
+theorem balancePods_sound (dry nodeFit prod : Bool) (order : Nat → List Nat) (src : List Node)
+    (tg : List Tgt) (avail : Vec) (e : Ev)
+    (he : e ∈ (balancePods dry nodeFit prod order tg avail src).evs) :
+    tg ≠ [] ∧ EvOK dry nodeFit prod src e := by
+  unfold balancePods at he
+  split at he
+  · simp at he
+  · rename_i h
+    exact ⟨by intro h0; simp [h0] at h, balanceLoop_sound _ _ _ _ _ _ _ _ he⟩
+
+/-- 1./2./3./6. Every Evict call of a balance round (all node pools, thresholds, pods, filters,
+    detector states, observed orders):
+    * comes from a measured node that is classified over its (prod) high threshold on the round's
+      measurements, and whose *running* usage is still above that threshold at the call;
+    * another measured node is classified under the low thresholds (a receiver exists);
+    * every tracked resource still has headroom at the call;
+    * the pod is one of that node's pods and passed the pod filter both at classification time
+      and right before the call (in the prod pass it is a prod pod; with NodeFit it has a metric);
+    * the round is not a dry run, and none of the early exits applied. -/
+theorem round_evict_sound (cfg : Cfg) (st : St) (r : RoundIn) (e : Ev)
+    (he : e ∈ (runRound cfg st r).evs) :
+    cfg.dryRun = false ∧ over e.usage e.high = true ∧ allPos e.avail = true ∧
+    (∃ n ∈ r.nodes, n.id = e.node ∧ classify n = (if e.prod then Cls.prodHigh else Cls.high) ∧
+      e.high = (if e.prod then n.phigh else n.high) ∧
+      (∃ p ∈ n.pods, p.id = e.pod ∧ p.filt1 = true ∧ p.filt2 = true ∧ e.ok = p.evictOK ∧
+        (e.prod = true → p.prod = true) ∧ (r.nodeFit = true → p.hasMetric = true)) ∧
+      ∃ m ∈ r.nodes, m ≠ n ∧ (classify m = Cls.bothLow ∨ classify m = (if e.prod then Cls.prodLow else Cls.low))) := by
+  unfold runRound at he
+  split at he
+  · simp at he
+  simp only at he
+  split at he
+  · simp at he
+  split at he
+  · simp at he
+  split at he
+  · simp at he
+  split at he
+  · simp at he
+  split at he
+  · simp at he
+  simp only [evictFromSources] at he
+  rcases List.mem_append.mp he with h | h
+  · obtain ⟨htg, hd, hpr, ho, hp, s, hs, hid, hh, hpod⟩ := balancePods_sound _ _ _ _ _ _ _ _ h
+    have hs1 := filterRealAbnormal_sub _ _ _ _ (orderNodes_sub _ _ _ hs)
+    rw [mem_ofClass] at hs1
+    have hprf : e.prod = false := hpr
+    refine ⟨hd, ho, hp, s, hs1.1, hid, by simp [hprf, hs1.2], by simpa [hprf] using hh, ?_, ?_⟩
+    · obtain ⟨p, hp1, hp2, hp3, hp4, hp5, _, hp7⟩ := hpod
+      exact ⟨p, hp1, hp2, hp3, hp4, hp5, by simp [hprf], hp7⟩
+    · have : ∃ t, t ∈ (ofClass Cls.low r.nodes ++ ofClass Cls.bothLow r.nodes) := by
+        cases hl : (ofClass Cls.low r.nodes ++ ofClass Cls.bothLow r.nodes) with
+        | nil => simp [hl] at htg
+        | cons t _ => exact ⟨t, by simp⟩
+      obtain ⟨t, ht⟩ := this
+      rcases List.mem_append.mp ht with ht | ht
+      · rw [mem_ofClass] at ht
+        refine ⟨t, ht.1, ?_, Or.inr (by simp [hprf, ht.2])⟩
+        intro heq; rw [heq, hs1.2] at ht; cases ht.2
+      · rw [mem_ofClass] at ht
+        refine ⟨t, ht.1, ?_, Or.inl ht.2⟩
+        intro heq; rw [heq, hs1.2] at ht; cases ht.2
+  · obtain ⟨htg, hd, hpr, ho, hp, s, hs, hid, hh, hpod⟩ := balancePods_sound _ _ _ _ _ _ _ _ h
+    have hs1 := filterRealAbnormal_sub _ _ _ _ (orderNodes_sub _ _ _ hs)
+    rw [mem_ofClass] at hs1
+    have hprt : e.prod = true := hpr
+    refine ⟨hd, ho, hp, s, hs1.1, hid, by simp [hprt, hs1.2], by simpa [hprt] using hh, ?_, ?_⟩
+    · obtain ⟨p, hp1, hp2, hp3, hp4, hp5, hp6, hp7⟩ := hpod
+      exact ⟨p, hp1, hp2, hp3, hp4, hp5, fun _ => hp6 rfl, hp7⟩
+    · have : ∃ t, t ∈ (ofClass Cls.prodLow r.nodes ++ ofClass Cls.bothLow r.nodes) := by
+        cases hl : (ofClass Cls.prodLow r.nodes ++ ofClass Cls.bothLow r.nodes) with
+        | nil => simp [hl] at htg
+        | cons t _ => exact ⟨t, by simp⟩
+      obtain ⟨t, ht⟩ := this
+      rcases List.mem_append.mp ht with ht | ht
+      · rw [mem_ofClass] at ht
+        refine ⟨t, ht.1, ?_, Or.inr (by simp [hprt, ht.2])⟩
+        intro heq; rw [heq, hs1.2] at ht; cases ht.2
+      · rw [mem_ofClass] at ht
+        refine ⟨t, ht.1, ?_, Or.inl ht.2⟩
+        intro heq; rw [heq, hs1.2] at ht; cases ht.2
+
+/-- the headroom every call of a round sees is exact: the Σ (high − usage) of the underused
+    nodes of the pass (`targetAvail`, node pass: low + both-low nodes; prod pass: prod-low nodes
+    plus the both-low share that the node pass left) minus everything moved earlier in the pass. -/
+theorem round_headroom_exact (nodeFit : Bool) (dims : Nat) (podOrd : Nat → List Nat)
+    (src low psrc plow both : List Node) :
+    AvailChain (vadd (vadd (List.replicate dims 0) (targetAvail false (List.replicate dims 0) low))
+        (targetAvail false (List.replicate dims 0) both))
+      (evictFromSources false nodeFit dims podOrd src low psrc plow both).1.evs ∧
+    AvailChain (vadd (vadd (List.replicate dims 0) (targetAvail true (List.replicate dims 0) plow))
+        (vmin (targetAvail true (List.replicate dims 0) both)
+          (vmin (targetAvail false (List.replicate dims 0) both)
+            (evictFromSources false nodeFit dims podOrd src low psrc plow both).1.avail)))
+      (evictFromSources false nodeFit dims podOrd src low psrc plow both).2.evs := by
+  unfold evictFromSources balancePods
+  simp only
+  constructor
+  · split
+    · trivial
+    · exact (balanceLoop_availChain _ _ _ _ _ _).1
+  · split
+    · trivial
+    · exact (balanceLoop_availChain _ _ _ _ _ _).1
+
+theorem get?_set_ne (ds : Dets) (k n : Nat) (d : Det) (h : k ≠ n) :
+    Dets.get? (Dets.set ds k d) n = Dets.get? ds n := by
+  induction ds with
+  | nil => simp [Dets.set, Dets.get?, h]
+  | cons x xs ih =>
+    rcases x with ⟨k', d'⟩
+    unfold Dets.set
+    by_cases h1 : k' = k
+    · subst h1; simp [Dets.get?, h]
+    · simp only [h1, if_false, Dets.get?]
+      split
+      · rfl
+      · exact ih
+
+theorem filterAbnormal_gated (c : Cond) (src : List Node) (ds : Dets) (n : Node)
+    (hnd : (src.map (·.id)).Nodup) (h : n ∈ (filterAbnormal c ds src).1) :
+    (((Dets.get? ds n.id).getD Det.fresh).markAbn c).anomaly = true := by
+  induction src generalizing ds with
+  | nil => simp [filterAbnormal] at h
+  | cons s ss ih =>
+    simp only [List.map_cons, List.nodup_cons] at hnd
+    unfold filterAbnormal at h
+    simp only at h
+    have tail : n ∈ (filterAbnormal c (Dets.set ds s.id (((Dets.get? ds s.id).getD Det.fresh).markAbn c)) ss).1 →
+        (((Dets.get? ds n.id).getD Det.fresh).markAbn c).anomaly = true := by
+      intro h'
+      have hne : s.id ≠ n.id := by
+        intro heq
+        exact hnd.1 (heq ▸ List.mem_map.mpr ⟨n, filterAbnormal_sub _ _ _ _ h', rfl⟩)
+      have := ih _ hnd.2 h'
+      rwa [get?_set_ne _ _ _ _ hne] at this
+    split at h
+    · rename_i hd
+      rcases List.mem_cons.mp h with rfl | h'
+      · exact hd
+      · exact tail h'
+    · exact tail h
+
+/-- 5. (round level, partial — see `anomaly_gating_partial` / `anomaly_gating_counterexample`)
+    with an anomaly condition other than "1 abnormality", every Evict call comes from a node whose
+    detector answered "anomaly" to this round's abnormal mark — hence (`markAbn_anomaly`) it was
+    anomalous before, or this mark took its count of abnormal marks above the configured number. -/
+theorem round_evict_gated (cfg : Cfg) (st : St) (r : RoundIn) (c : Cond) (hc : cfg.cond = some c)
+    (h1 : c.abn ≠ 1) (hnd : (r.nodes.map (·.id)).Nodup) (e : Ev) (he : e ∈ (runRound cfg st r).evs) :
+    ∃ n ∈ r.nodes, n.id = e.node ∧
+      (((Dets.get? (if e.prod then st.prodDet else st.nodeDet) n.id).getD Det.fresh).markAbn c).anomaly = true := by
+  have sub : ∀ k, ((ofClass k r.nodes).map (·.id)).Nodup := fun k =>
+    hnd.sublist ((List.filter_sublist (l := r.nodes)).map _)
+  unfold runRound at he
+  split at he
+  · simp at he
+  simp only at he
+  split at he
+  · simp at he
+  split at he
+  · simp at he
+  split at he
+  · simp at he
+  split at he
+  · simp at he
+  split at he
+  · simp at he
+  simp only [evictFromSources] at he
+  simp only [hc, filterRealAbnormal, h1, if_false] at he
+  rcases List.mem_append.mp he with h | h
+  · obtain ⟨_, _, hpr, _, _, s, hs, hid, _⟩ := balancePods_sound _ _ _ _ _ _ _ _ h
+    have hprf : e.prod = false := hpr
+    have hs0 := orderNodes_sub _ _ _ hs
+    have hs1 := filterAbnormal_sub _ _ _ _ hs0
+    rw [mem_ofClass] at hs1
+    exact ⟨s, hs1.1, hid, by simpa [hprf] using filterAbnormal_gated c _ _ s (sub _) hs0⟩
+  · obtain ⟨_, _, hpr, _, _, s, hs, hid, _⟩ := balancePods_sound _ _ _ _ _ _ _ _ h
+    have hprt : e.prod = true := hpr
+    have hs0 := orderNodes_sub _ _ _ hs
+    have hs1 := filterAbnormal_sub _ _ _ _ hs0
+    rw [mem_ofClass] at hs1
+    exact ⟨s, hs1.1, hid, by simpa [hprt] using filterAbnormal_gated c _ _ s (sub _) hs0⟩
+
+/-- a node classified `high` (`prodHigh`) really is above its (prod) high threshold in some
+    resource on the round's measurements, and a receiver really is a schedulable node at or under
+    every (prod) low threshold. -/
+theorem classify_meaning (n : Node) :
+    (classify n = Cls.high → over n.usage n.high = true) ∧
+    (classify n = Cls.prodHigh → over n.prodUsage n.phigh = true) ∧
+    (classify n = Cls.low ∨ classify n = Cls.bothLow → n.unsched = false ∧ under n.usage n.low = true) ∧
+    (classify n = Cls.prodLow ∨ classify n = Cls.bothLow → n.unsched = false ∧ under n.prodUsage n.plow = true) := by
+  unfold classify lowFilter prodLowFilter highFilter prodHighFilter
+  by_cases a : n.unsched = true <;> by_cases b : under n.usage n.low = true <;>
+    by_cases c : over n.usage n.high = true <;> by_cases d : over n.prodUsage n.phigh = true <;>
+    by_cases f : under n.prodUsage n.plow = true <;> simp [a, b, c, d, f]
+
+/-! ### 4. nothing is evicted when … -/
+
+theorem nothing_when_no_source (cfg : Cfg) (st : St) (r : RoundIn)
+    (h1 : ofClass .high r.nodes = []) (h2 : ofClass .prodHigh r.nodes = []) :
+    (runRound cfg st r).evs = [] := by
+  unfold runRound
+  split
+  · rfl
+  · simp [h1, h2]
+
+theorem nothing_when_no_receiver (cfg : Cfg) (st : St) (r : RoundIn)
+    (h1 : ofClass .low r.nodes = []) (h2 : ofClass .prodLow r.nodes = []) (h3 : ofClass .bothLow r.nodes = []) :
+    (runRound cfg st r).evs = [] := by
+  unfold runRound
+  split
+  · rfl
+  simp only
+  split
+  · rfl
+  split
+  · rfl
+  simp [h1, h2, h3]
+
+theorem nothing_when_all_low (cfg : Cfg) (st : St) (r : RoundIn)
+    (h : (ofClass .low r.nodes).length + (ofClass .prodLow r.nodes).length + (ofClass .bothLow r.nodes).length = r.total) :
+    (runRound cfg st r).evs = [] := by
+  unfold runRound
+  split
+  · rfl
+  simp only
+  split
+  · rfl
+  split
+  · rfl
+  split
+  · rfl
+  split
+  · rfl
+  simp
+
+theorem nothing_when_few_low (cfg : Cfg) (st : St) (r : RoundIn)
+    (h : (((ofClass .low r.nodes).length + (ofClass .prodLow r.nodes).length + (ofClass .bothLow r.nodes).length : Nat) : Int)
+      ≤ cfg.numberOfNodes) :
+    (runRound cfg st r).evs = [] := by
+  unfold runRound
+  split
+  · rfl
+  simp only
+  split
+  · rfl
+  split
+  · rfl
+  split
+  · rfl
+  simp
+
+/-- nobody anomalous ⇒ nothing evicted. -/
+theorem nothing_when_not_anomalous (cfg : Cfg) (st : St) (r : RoundIn)
+    (h1 : (filterRealAbnormal cfg.cond st.nodeDet (ofClass .high r.nodes)).1 = [])
+    (h2 : (filterRealAbnormal cfg.cond st.prodDet (ofClass .prodHigh r.nodes)).1 = []) :
+    (runRound cfg st r).evs = [] := by
+  unfold runRound
+  split
+  · rfl
+  simp only
+  split
+  · rfl
+  simp [h1, h2]
+
+/-! ### 5. anomaly gating over rounds: the full statement fails on the code as written -/
+
+/-- the events of each round of a history, from the given state. -/
+def runHistory (cfg : Cfg) : St → List RoundIn → List (List Ev)
+  | _, [] => []
+  | st, r :: rs => (runRound cfg st r).evs :: runHistory cfg (runRound cfg st r).st rs
+
+/-- node `id` is measured and classified over its (prod) high threshold in round `r`. -/
+def overIn (r : RoundIn) (id : Nat) (prod : Bool) : Bool :=
+  r.nodes.any fun n => n.id == id && (classify n == (if prod then Cls.prodHigh else Cls.high))
+
+/-- FULL STATEMENT of the gating clause: an eviction in round `k` only from a node that was over
+    its threshold in each of the last `abn` rounds `k+1-abn … k`. -/
+def ConsecutiveRule (cfg : Cfg) (rs : List RoundIn) : Prop :=
+  ∀ c, cfg.cond = some c → ∀ k evs, (runHistory cfg ⟨[], []⟩ rs)[k]? = some evs → ∀ e ∈ evs,
+    ∀ j r, k + 1 - c.abn ≤ j → j ≤ k → rs[j]? = some r → overIn r e.node e.prod = true
+
+namespace Witness
+def pod : Pod := ⟨1, false, true, [50], [50], true, true, true⟩
+def cold : Node := ⟨0, false, false, [10], [0], [30], [60], [10], [100], []⟩
+def hot : Node := ⟨1, false, false, [80], [20], [30], [60], [10], [100], [pod]⟩
+def mid : Node := ⟨1, false, false, [45], [20], [30], [60], [10], [100], [pod]⟩
+def rHot : RoundIn := ⟨2, false, 1, [cold, hot], [], fun _ => []⟩
+def rMid : RoundIn := ⟨2, false, 1, [cold, mid], [], fun _ => []⟩
+def cfg : Cfg := ⟨some ⟨2, 1⟩, 0, false⟩
+def ev : Ev := ⟨1, 1, false, true, [80], [60], [50], true, [50]⟩
+end Witness
+
+/-- consecutiveAbnormalities = 2; node 1 is over its threshold in rounds 0, 1, not in round 2,
+    again in round 3 — and is evicted from in round 3. -/
+theorem anomaly_gating_counterexample : ¬ ∀ cfg rs, ConsecutiveRule cfg rs := by
+  intro h
+  have h3 : (runHistory Witness.cfg ⟨[], []⟩ [Witness.rHot, Witness.rHot, Witness.rMid, Witness.rHot])[3]?
+      = some [Witness.ev] := by decide
+  have := h Witness.cfg [Witness.rHot, Witness.rHot, Witness.rMid, Witness.rHot] ⟨2, 1⟩ rfl 3 _ h3
+    Witness.ev (by simp) 2 Witness.rMid (by decide) (by decide) rfl
+  revert this
+  decide
+
+/-! ### non-vacuity -/
+
+-- a round that does evict, and whose single call satisfies the conclusions of `round_evict_sound`
+example : (runRound ⟨none, 0, false⟩ ⟨[], []⟩ Witness.rHot).evs = [Witness.ev] := by decide
+example : classify Witness.hot = .high ∧ classify Witness.cold = .bothLow ∧ classify Witness.mid = .normal := by decide
+-- the hypotheses of `anomaly_gating_partial` are satisfiable: three abnormal marks with abn = 2
+example : ([Mark.abn, .abn].foldl (Det.step ⟨2, 1⟩) Det.fresh).anomaly = false ∧
+    ([Mark.abn, .abn, .abn].foldl (Det.step ⟨2, 1⟩) Det.fresh).anomaly = true := by decide
+-- the loop stops after one call although a second removable pod is left
+example : (evictLoop false false 1 [60] [80] [50]
+    [⟨1, false, true, [50], [50], true, true, true⟩, ⟨2, false, true, [5], [5], true, true, true⟩]).evs.length = 1 := by decide
 
 end KoordVerif.C18
